@@ -116,7 +116,7 @@ Proof.
     |[(sid & req & copts & orc & Eop & K1)|[(sid & i & yopts & a & ckw & orc & Eop & K1)
     |[(sid & ty & i & det' & err & a & ckw & orc & Eop & K1)|(ms & Eop & K1)]]]]].
   - destruct (Calm K1).
-  - destruct K1 as [K1|(y & i & rid & idet & Eo & _)]; [destruct (Calm K1)|].
+  - destruct K1 as [[K1 _]|(y & i & rid & idet & Eo & _)]; [destruct (Calm K1)|].
     rewrite Eo in Hm. destruct Hm as [Hm|[]]. discriminate Hm.
   - destruct K1 as (_ & _ & [(_ & Kt & _)|(k0 & inv0 & _ & _ & _ & _ & _ & _ & Eo)]).
     + rewrite (Kt m Hm) in Ht. discriminate Ht.
@@ -239,7 +239,7 @@ Proof.
     |[(sid & req & copts & orc & Eop & K1)|[(sid & i' & yopts & a & ckw & orc & Eop & K1)
     |[(sid & ty & i' & det' & err & a & ckw & orc & Eop & K1)|(ms & Eop & K1)]]]]].
   - destruct (Calm K1).
-  - destruct K1 as [K1|(y' & i' & rid & idet & Eo & _)]; [destruct (Calm K1)|].
+  - destruct K1 as [[K1 _]|(y' & i' & rid & idet & Eo & _)]; [destruct (Calm K1)|].
     rewrite Eo in Hm. destruct Hm as [Hm|[]]. discriminate Hm.
   - (* CANCEL *) right.
     assert (Fin : forall k1 inv mode, cget (d_invs (r_dealer r1)) k1 = Some inv -> inv_call inv = (sid, req) ->
